@@ -498,6 +498,42 @@ def run(fx, ck, OP):
     if not ok_vm:
         ck.finding("R24.jump-out-of-finally-discards", "R24.jump-out-of-finally-discards/vm-arm", None,
                    "the VM has no arm for Op::DiscardCompletion that empties pending_completion: nothing forgets the completion of a finally block that a jump leaves")
+    # ---- R25 `in` is HasProperty: own properties and the prototype chain
+    ck.rule("R25.in-walks-prototype-chain", "the VM arm of Op::In (and the plain-object branch of proxy_has, which Reflect.has and the proxy forwarding use) decides membership "
+            "with a JsObject lookup that walks the prototype chain (a method that reads JsObject.prototype and recurses), never with an own-property lookup alone", floor=2)
+    walkers25 = set()
+    for p25, g25 in fx.fns.items():
+        if g25.closure or g25.derived or not p25.startswith("value::JsObject::"):
+            continue
+        rec25 = any((t[1].get("d") or "") == p25 for _, t in g25.calls())
+        reads25 = False
+        for bl in g25.blocks:
+            for s_ in bl["s"]:
+                if s_[0] == "a" and any(n_ == "prototype" for pl_ in F.rvalue_places(s_[2]) for a_, v_, n_ in F.place_fields(pl_)):
+                    reads25 = True
+        if rec25 and reads25:
+            walkers25.add(p25)
+    ck.anchor(len(walkers25) >= 2, "JsObject has chain-walking lookups (get_property, get_property_descriptor)")
+    OWN25 = ("::has_own_property", "::get_own_property")
+    sites25 = []
+    if vm24:
+        for b25, en25, pl25, arms25, other25, rest25 in M.enum_switches(fx, vm24[0]):
+            if str(en25).endswith("bytecode::Op") and "In" in arms25:
+                sites25.append(("execute_op/Op::In", vm24[0], M.dominated_region(vm24[0], arms25["In"])))
+    for p25, g25 in fx.fns.items():
+        if p25.endswith("proxy::proxy_has") and not g25.closure:
+            sites25.append(("proxy_has", g25, set(range(len(g25.blocks)))))
+    ck.anchor(len(sites25) >= 2, "the two deciders of HasProperty (the Op::In arm, proxy_has)")
+    for nm25, g25, reg25 in sites25:
+        ds25 = [(t[1].get("d") or "", t[6]) for bi, t in g25.calls() if bi in reg25]
+        walks = [d for d, _ in ds25 if d in walkers25]
+        owns = [(d, sp) for d, sp in ds25 if d.endswith(OWN25)]
+        ok25 = bool(walks) and not owns
+        ck.instance("R25.in-walks-prototype-chain", "%s: %s" % (nm25, ", ".join(sorted(set(w.split("::")[-1] for w in walks))) or "no chain lookup"), F.short_span(g25.span), ok=ok25)
+        if not ok25:
+            ck.finding("R25.in-walks-prototype-chain", "R25.in-walks-prototype-chain/%s" % nm25, F.short_span(owns[0][1] if owns else g25.span),
+                       "`%s` decides `key in obj` with %s: inherited properties and the elements of an array are not found - `'toString' in {}`, `0 in [1]`, "
+                       "`'length' in []`, `'m' in new (class { m(){} })` are all false" % (nm25, ("`%s`" % owns[0][0].split("::")[-1]) if owns else "no lookup that walks the prototype chain"))
     # ---- R13 string positions have units
     import strunits
     ck.rule("R13.string-units", "units check over string natives: no script number from a byte quantity (U-out), no byte-position API fed a character quantity (U-in), "
